@@ -1,5 +1,5 @@
 """C05 - type hints are translated faithfully and compositionally."""
-from vlib.plan import CH
+from vlib.plan import CH, K
 
 FUNCTIONS = [
     "safeds_stubgen.api_analyzer._ast_visitor:MyPyAstVisitor.mypy_type_to_abstract_type",
@@ -13,15 +13,19 @@ EXPLANATION = (
     "canonical form, with the reference image of the term. Terms: every constructor of the statement (int/str/bool/"
     "float/None/Any, class, type variable, list/Sequence/Collection, set, tuple, dict/Mapping, union, Optional, Literal "
     "of str/int/bool, Callable with 0-1 parameters and 0-2 results, generic class) applied to 12 leaves (depth 1), and "
-    "9 outer constructors around every depth-1 term over 4 leaves (depth 2). (name_dispatch) the class NAME of an "
+    "9 outer constructors around every depth-1 term over 4 leaves (depth 2). (positions) every depth-1 term over 4 leaves, bare and wrapped in list / Optional / "
+    "dict value, is placed as parameter annotation, constructor-parameter annotation, return annotation, class "
+    "attribute annotation and constructor-assigned attribute annotation of one module (shim tree, validated against "
+    "the real mypy on every run); the real walker+visitor must give all five the reference image of the term. "
+    "(name_dispatch) the class NAME of an "
     "Instance is a SYMBOLIC string (<= 4 characters): every name outside the translator's built-in table yields a "
     "class reference carrying exactly that name - z3 decides the membership tests of the name-based dispatch."
 )
 ASSUMPTIONS = [
     "terms are those Python/mypy can produce: no union directly inside a union, no duplicate union members (mypy "
     "simplifies them itself)",
-    "the mypy shim stands for mypy's analysed types; the unanalysed-type special cases (Final, list[int, str]) and the "
-    "position-consistency clause of the property are not covered in this round",
+    "the mypy shim stands for mypy's analysed and un-analysed types; its position builders are validated against the "
+    "real mypy on every run; the Final / list[int, str] special cases are not covered",
     "literal values from {'a', 1, True, 2}; class/typevar/generic names fixed except in name_dispatch",
 ]
 BOUNDS = {"quick": "4186 terms (depth 1 over 12 leaves; depth 2 = 9 outer constructors x depth-1 over 4 leaves); names <= 4 chars",
@@ -45,6 +49,9 @@ def plan(tier):
         CH("analyser", "harness.c05", "analyser", parts, timeout=t, desc="mypy type -> API type vs reference",
            stubs=["mypy type classes -> shim"], symbolic="term selectors"),
         CH("gen", "harness.c05", "gen", parts, timeout=t, desc="API type -> stub type string vs reference", symbolic="term selectors"),
+        K("conformance", "harness.c05pos", "conformance_job", "position builders vs real mypy", timeout=900),
+        CH("positions", "harness.c05pos", "positions", [f"0:{o},1:{k}" for o in range(4) for k in range(14) if k != 11 and not (o == 2 and k in (5, 9))], timeout=t,
+           desc="same annotation, same API type in five positions", stubs=["mypy -> validated shim"], symbolic="term selectors"),
         CH("name_dispatch", "harness.c05", "name_dispatch", [""], timeout=t, desc="class-name dispatch on a symbolic name",
            symbolic="class name (str, <= 4 chars)", stubs=["mypy type classes -> shim"]),
     ]
